@@ -492,3 +492,35 @@ func replayKnown(t *testing.T, p *WorldProp) {
 		}
 	}
 }
+
+
+// replayKnownGeneric is replayKnown for properties that are not plain world-machine tests: judge
+// re-runs the saved input and returns the violation it finds (or nil).
+// knownMatch: property -> finding name -> its match string (for findings that still reproduce).
+var knownMatch = map[string]map[string]string{}
+
+func replayKnownGeneric(t *testing.T, prop string, judge func(cf *CaseFile) *Violation) {
+	act := map[string]bool{}
+	activeKnown[prop] = act
+	knownMatch[prop] = map[string]string{}
+	st := getStats(prop)
+	for _, kf := range loadKnown(prop) {
+		b, err := os.ReadFile(filepath.Join(findingsDir(), kf.Replay))
+		if err != nil {
+			t.Logf("known finding %s: cannot read %s: %v", kf.ID, kf.Replay, err)
+			continue
+		}
+		var cf CaseFile
+		if err := json.Unmarshal(b, &cf); err != nil {
+			continue
+		}
+		if v := judge(&cf); v != nil && strings.Contains(v.Error(), kf.ID) && (kf.Match == "*" || strings.Contains(v.Error(), kf.Match)) {
+			act[kf.Name()] = true
+			knownMatch[prop][kf.Name()] = kf.Match
+			fmt.Printf("KNOWN-FINDING: property=%s %s %s\n", prop, kf.Name(), kf.Text)
+			statsMu.Lock()
+			st.Known = append(st.Known, kf.Name())
+			statsMu.Unlock()
+		}
+	}
+}
